@@ -9,7 +9,12 @@ where
 {
     if let Some(prev) = maybe_prev {
         if event.is_subject == prev.is_subject {
-            event.set_in_out(!prev.is_in_out(), prev.is_other_in_out());
+            if prev.is_vertical() {
+                // A vertical predecessor is not crossed: the event starts on its right-hand side.
+                event.set_in_out(prev.is_in_out(), prev.is_other_in_out());
+            } else {
+                event.set_in_out(!prev.is_in_out(), prev.is_other_in_out());
+            }
         } else if prev.is_vertical() {
             event.set_in_out(!prev.is_other_in_out(), !prev.is_in_out());
         } else {
